@@ -3,11 +3,15 @@ import WuffsVerif.Model.WSem
 import WuffsVerif.Model.CExpr
 import WuffsVerif.Model.Iterate
 import WuffsVerif.Model.CStmtAst
+import WuffsVerif.Model.CExprTreeAst
 /-! Line driver for C04.  Stateful ops:
 
   case <id> <serialised typed AST of one struct + its methods>   -> init ok | bad-program
   call <method> [<arg>=<int>]*                                    -> r <ret> | <field values>
                                                                      (or `undef:…` / `unsupported:…`)
+  lowerexpr <serialised typed AST of an expression>
+                     -> canonical prefix form of the C that the modelled writeExpr recursion
+                        (Model/CExprTree.lean lowerN / lowerB, subject of Props/C04Expr.lean) writes
   skel <method>      -> control skeleton of the C body that the modelled statement lowering
                         (Model/CStmt.lean lowerL, subject of Props/C04Stmt.lean) writes for the method
 Stateless ops of the shape check (canonical prefix form of the C that `lower…` yields;
@@ -105,6 +109,10 @@ def c04Step (d : DSt) (l : List String) : DSt × String :=
     match (parseTree toks).bind loadProg with
     | some p => ({ prog := some p, st := initSt p }, "init ok")
     | none => ({}, "bad-program")
+  | "lowerexpr" :: toks =>
+    match parseTree toks with
+    | some n => (d, WuffsVerif.C.lowerExprText n)
+    | none => (d, "bad-expression")
   | ["skel", m] =>
     match d.prog with
     | none => (d, "bad-op")
